@@ -272,8 +272,19 @@ def run(P, rep, tier):
     from sa.dom import containers
     bad = {}
 
+    def all_options_hook(i, sid, rec):
+        # every option name the specification defines is present in every content header (with an unknown value):
+        # code that touches an option only "if present" is exercised
+        if sid in ('diffx', '.change', '..file'):
+            return
+        for v in rec.items.values():
+            if isinstance(v, ADict):
+                for k_ in KNOWN_OPTION_NAMES:
+                    v.items.setdefault(k_, Unk('%s#%d' % (k_, i), kinds=['str'], taint=['INPUT']))
+
     def thunk2():
         H2 = DomReaderHarness(P, shapes, open_options=False)
+        H2.record_hook = all_options_hook
         H2.install(I)
         I.deterministic = True
         try:
